@@ -4,6 +4,7 @@ import (
 	"fmt"
 	"go/token"
 	"go/types"
+	"sort"
 
 	"golang.org/x/tools/go/ssa"
 
@@ -445,6 +446,40 @@ func runC03(c *Ctx) {
 			}
 		})
 		c.verdict(okSkip, c.nm(fn)+" | only the coinbase (index 0) is skipped", c.P.Pos(fn.Pos()), "idx == 0 skip present", "the coinbase skip is not `idx == 0`")
+	})
+
+	c.rule("C03.O3", "the ban of a detected liar is recorded: "+banRecordedDoc, func() { c.banRecorded() })
+
+	c.rule("C03.O4", "every peer is heard before peers are judged: the response callbacks the block manager hands to queryAllPeers (getCheckpts, getCFHeadersForAllPeers, fetchFilterFromAllPeers) may retire the answering peer (close(peerQuit)) but never end the whole query (close(quit)): a peer that has not answered yet would be treated as silent and, in a dispute, banned, while the remaining answers are never compared", func() {
+		qf := c.field("neutrino", "blockManagerCfg", "queryAllPeers")
+		var bad, sites []string
+		n := 0
+		for _, f := range c.P.Funcs {
+			for _, x := range find(f, callVia(qf)) {
+				for _, a := range ir.CallOf(x).Args {
+					mc, ok := a.(*ssa.MakeClosure)
+					if !ok {
+						continue
+					}
+					cl := mc.Fn.(*ssa.Function)
+					if len(cl.Params) != 4 {
+						continue
+					}
+					n++
+					sites = append(sites, c.nm(cl)+"@"+c.at(x))
+					for _, g := range ir.WithClosures(cl) {
+						for _, cc := range find(g, isBuiltin("close")) {
+							arg := ir.CallOf(cc).Args[0]
+							if ir.DerivesFrom(arg, func(v ssa.Value) bool { return v == ssa.Value(cl.Params[2]) }) {
+								bad = append(bad, c.nm(cl)+" closes the query-wide quit channel at "+c.at(cc))
+							}
+						}
+					}
+				}
+			}
+		}
+		sort.Strings(bad)
+		c.verdict(len(bad) == 0 && n >= 3, "blockManager | all-peer queries run until every peer answered or timed out", "-", fmt.Sprintf("%d response callback(s); none closes the query-wide quit channel", n), join(bad)+fmt.Sprintf(" (%d callbacks found, 3 tabled)", n), sites...)
 	})
 
 	c.rule("C03.W1", "only the tabled functions write or roll back the filter-header store", func() {
